@@ -21,8 +21,8 @@ ASSUMPTIONS = [
     "with U empty the 'label' attribute is not compared with SupervisedOPF (the semi-supervised code overwrites it with the propagated label by design)",
 ]
 BUDGET = {
-    "quick": {"cases": 2000, "seconds": 60, "shards": 8},
-    "thorough": {"cases": 30000, "seconds": 540, "shards": 16},
+    "quick": {"cases": 8000, "seconds": 90, "shards": 8},
+    "thorough": {"cases": 200000, "seconds": 900, "shards": 16},
 }
 REQUIRED_OBS = ["cost_compared", "unlabeled_pred_of_labeled", "u0_compared_with_supervised", "unlabeled_label_checked", "pre_computed_cases"]
 MIN_NONTRIVIAL = 60
